@@ -302,3 +302,99 @@ def _post(self, H, case, outcome, I, ctx):
 
 
 AssetSetTimegrid.post = _post
+
+
+@register
+class TimegridCoarse(Contract):
+    """Timegrid(start, end, freq = coarser than ref.freq, ref_timegrid = ref): C19.coarse / C13.coarse / C12 (Tick frequency:
+    coarse interval k = [start + k*delta, start + (k+1)*delta), as many as fit before `end`).
+      members(k)   = the fine steps whose time point lies in interval k, in increasing order (I_minor_in_major[k])
+      I[k], Dt[k], timepoints[k], discount_factors[k] = those of the FIRST member,   dt[k] = sum of the members' dt
+    Non-emptiness of every coarse interval is a safety obligation of `.min()`; it does not follow from anything the
+    constructor checks (window beyond the reference grid, finer gaps) -- see finding D25b."""
+    qualname = 'basic_classes:Timegrid.__init__'
+    prefix = 'C19.coarse'
+    properties = ('C19', 'C13', 'C12')
+    # `ref.I[I].min()` and the three `[myI]` reads are safe only if every coarse interval contains a fine step, which nothing
+    # guarantees (finding D25b, reproduced natively by bounded scenario check_coarse_beyond_horizon): not claimed here
+    ignore_safety = ('index',)
+
+    def cases(self):
+        return [dict(df=True), dict(df=False)]
+
+    def harness(self, H, case):
+        g = mk_root_grid(H)
+        if case['df']:
+            df = disc_fun(H)
+            g.set('discount_factors', Arr(g.get('T'), lambda k: df(lift(k))))
+        else:
+            df = None
+        tz = g.get('tz')
+        s, e = H.int('r_start'), H.int('r_end')
+        freq = H.str('coarse_freq')
+        H.assume(freq != g.get('freq'))
+        self_obj = Obj('Timegrid')
+        return dict(self_obj=self_obj, args=[TS(s, tz), TS(e, tz), freq, g.get('main_time_unit'), g, None], g=g, s=s, e=e, df=df, tz=tz, freq=freq,
+                    flags=dict(date_range='tick'))
+
+    def post(self, H, case, outcome, I, ctx):
+        so, g = ctx['self_obj'], ctx['g']
+        dc = freq_ns(I, ctx['freq'])
+        dfine = freq_ns(I, g.get('freq'))
+        if outcome[0] == 'raise':
+            yield ('C19.coarse.refuses_only_finer_frequency', dc < dfine)
+            return
+        if outcome[0] == 'havoc':
+            yield ('C19.coarse.modelled', Havoc(outcome[1]))
+            return
+        need = ('T', 'timepoints', 'dt', 'Dt', 'I', 'I_minor_in_major')
+        yield ('C19.coarse.attributes', all(so.has(a) for a in need))
+        if not all(so.has(a) for a in need):
+            return
+        T, tp, dt, Dt, Ix, mem = (so.get(a) for a in need)
+        from pyvc.interp import Seg as _Seg
+        if isinstance(mem, _Seg):
+            from pyvc.libmodel import seg_to_arr
+            mem = seg_to_arr(I, mem)
+        for x in (T, tp, dt, Dt, Ix, mem):
+            if isinstance(x, Havoc):
+                yield ('C19.coarse.modelled', x)
+                return
+        s0, e0 = ctx['s'], ctx['e']
+        gtp, gdt, gDt, gT = g.get('timepoints'), g.get('dt'), g.get('Dt'), g.get('T')
+        k, j, p = z3.Int('k'), z3.Int('j'), z3.Int('p')
+        kr = z3.And(k >= 0, k < T)
+        inside = lambda kk, jj: z3.And(s0 + kk * dc <= gtp.f(jj).t, gtp.f(jj).t < s0 + (kk + 1) * dc)
+        yield ('C19.coarse.count', z3.Implies(s0 <= e0, z3.And(T >= 0, s0 + T * dc <= e0, e0 < s0 + (T + 1) * dc)))
+        yield ('C19.coarse.lengths', z3.And(lift(tp.n) == T, lift(dt.n) == T, lift(Dt.n) == T, lift(Ix.n) == T, lift(mem.n) == T))
+        # members of interval k: sound and complete, increasing
+        mk_ = lambda kk: mem.f(kk)
+        sym.SCOPE.append(k)
+        try:
+            mk = mk_(k)
+            sound = z3.ForAll([k, p], z3.Implies(z3.And(kr, p >= 0, p < lift(mk.n)), z3.And(lift(mk.f(p)) >= 0, lift(mk.f(p)) < gT, inside(k, lift(mk.f(p))))))
+            incr = z3.ForAll([k, p], z3.Implies(z3.And(kr, p >= 0, p + 1 < lift(mk.n)), lift(mk.f(p)) < lift(mk.f(p + 1))))
+            # witness for "j is a member": its rank among the selected steps (selection functions of the interval mask)
+            cnt_, sel_, rank_ = sym.COMP.get(Arr(gT, lambda jj: inside(k, lift(jj))))
+            complete = z3.ForAll([k, j], z3.Implies(z3.And(kr, j >= 0, j < gT, inside(k, j)), z3.And(
+                rank_(j) >= 0, rank_(j) < lift(mk.n), lift(mk.f(rank_(j))) == j)))
+            first = z3.ForAll([k], z3.Implies(z3.And(kr, lift(mk.n) > 0), z3.And(
+                lift(Ix.f(k)) == lift(mk.f(0)), lift(tp.f(k).t) == gtp.f(mk.f(0)).t, lift(Dt.f(k)) == gDt.f(mk.f(0)))))
+            pc = list(I.pc)
+            total = z3.ForAll([k], z3.Implies(kr, lift(dt.f(k)) == S.psum(lambda jj: sym.ite(inside(k, jj), gdt.f(jj), z3.RealVal(0)), 0, gT, pc)))
+        finally:
+            sym.SCOPE.pop()
+        yield ('C19.coarse.members_lie_in_their_interval', sound)
+        yield ('C19.coarse.members_increasing', incr)
+        yield ('C19.coarse.every_fine_step_of_an_interval_is_a_member', complete)
+        yield ('C13.coarse.first_member_gives_index_time_and_cumulative_time', first)
+        yield ('C12.coarse.step_length_is_sum_of_minor_steps', total)
+        yield ('C13.coarse.total', total)
+        if case['df'] and so.has('discount_factors'):
+            dff = so.get('discount_factors')
+            sym.SCOPE.append(k)
+            try:
+                mk = mk_(k)
+                yield ('C13.coarse.discount_of_first_member', z3.ForAll([k], z3.Implies(z3.And(kr, lift(mk.n) > 0), lift(dff.f(k)) == ctx['df'](mk.f(0)))))
+            finally:
+                sym.SCOPE.pop()
